@@ -187,7 +187,14 @@ fn tracker_visit_expr<'a>(expr: &ast::Expr<'a>, state: &mut AssignmentTracker<'a
             tracker_visit_expr_opt(&slice.step, state);
         }
         ast::Expr::Call(expr) => {
-            tracker_visit_expr(&expr.expr, state);
+            match expr.identify_call() {
+                // `super()` and `self.block()` are resolved by the engine itself
+                // and never looked up.  Everywhere else `super` and `self` are
+                // ordinary variables.
+                #[cfg(feature = "multi_template")]
+                ast::CallType::Function("super") | ast::CallType::Block(_) => {}
+                _ => tracker_visit_expr(&expr.expr, state),
+            }
             expr.args
                 .iter()
                 .for_each(|x| tracker_visit_callarg(x, state));
@@ -213,7 +220,6 @@ fn track_assign<'a>(expr: &ast::Expr<'a>, state: &mut AssignmentTracker<'a>) {
 fn track_walk<'a>(node: &ast::Stmt<'a>, state: &mut AssignmentTracker<'a>) {
     match node {
         ast::Stmt::Template(stmt) => {
-            state.assign("self");
             stmt.children.iter().for_each(|x| track_walk(x, state));
         }
         ast::Stmt::EmitExpr(expr) => tracker_visit_expr(&expr.expr, state),
@@ -223,9 +229,10 @@ fn track_walk<'a>(node: &ast::Stmt<'a>, state: &mut AssignmentTracker<'a>) {
             // the iterable is evaluated before the loop (and its `loop`
             // variable) exists.
             tracker_visit_expr(&stmt.iter, state);
-            state.assign("loop");
             track_assign(&stmt.target, state);
+            // the filter runs in a pass of its own in which `loop` is not bound yet
             tracker_visit_expr_opt(&stmt.filter_expr, state);
+            state.assign("loop");
             stmt.body.iter().for_each(|x| track_walk(x, state));
             state.pop();
             state.push();
@@ -279,7 +286,6 @@ fn track_walk<'a>(node: &ast::Stmt<'a>, state: &mut AssignmentTracker<'a>) {
         #[cfg(feature = "multi_template")]
         ast::Stmt::Block(stmt) => {
             state.push();
-            state.assign("super");
             stmt.body.iter().for_each(|x| track_walk(x, state));
             state.pop();
         }
@@ -295,10 +301,12 @@ fn track_walk<'a>(node: &ast::Stmt<'a>, state: &mut AssignmentTracker<'a>) {
         }),
         #[cfg(feature = "macros")]
         ast::Stmt::Macro(stmt) => {
-            state.assign(stmt.name);
+            // the macro is stored under its name only after it was built; a
+            // macro that refers to itself is looked up at that point.
             state.push();
             tracker_visit_macro(stmt, state, true);
             state.pop();
+            state.assign(stmt.name);
         }
         #[cfg(feature = "macros")]
         ast::Stmt::CallBlock(stmt) => {
